@@ -401,3 +401,187 @@ def example_files(repo):
                 if name.endswith('.las'):
                     out.append((os.path.join(dd, name), None))
     return out
+
+
+# ------------------------------------------------------------------------------------------------ sized files
+# "The answer does not depend on the file's data content or size": files whose *header part* (what precedes the first
+# byte that distinguishes the format, or what the recogniser has to read through) has a chosen size, and whose total
+# size has a chosen value — used around every power of two (buffer / chunk boundaries).
+
+def _text_of_len(rng, n, alphabet=NAME_CHARS):
+    return rprintable(rng, max(n, 0), alphabet).decode()
+
+
+def sized_dat(rng, target):
+    """DAT text whose declaration section + header line is `target` characters (when target allows at least 4 channels):
+    many channels and/or long descriptions; one or more data rows follow."""
+    nl = rng.choice(['\n', '\n', '\r\n'])
+    sep = rng.choice([' ', '\t'])
+    style = rng.randrange(3)            # 0: many short declarations, 1: few long ones, 2: mixed
+    avg = (28, 110, 60)[style]
+    n_extra = max(1, (target - 80) // (avg + 8))
+    names = ['C%d' % i if style != 1 else 'CH%dX' % i for i in range(n_extra)]
+    decl = [('UTIM', 'Unix Time', 'sec'), ('DATE', 'Date', 'ddmmyy'), ('TIME', 'Time', 'hhmmss')]
+    for nm in names:
+        words = ' '.join(_text_of_len(rng, rng.randint(1, 12), b'abcdefghijklmnopqrstuvwxyz') for _ in range(max(1, avg // 9)))
+        decl.append((nm, words, rng.choice(['m', 'ppm', 'klb', 'm/hr', '%'])))
+    order = list(decl)
+    if rng.random() < 0.3:
+        rng.shuffle(order)
+    hdr = sep.join(a for a, _, _ in decl)
+    def render(order):
+        return [sep.join([a] + b.split() + [c]) for a, b, c in order]
+    lines = render(order)
+    size = sum(len(l) + len(nl) for l in lines) + len(hdr) + len(nl)
+    # adjust the last extra declaration's description so that the section has exactly `target` characters
+    i = max(k for k, d in enumerate(order) if d[0] not in ('UTIM', 'DATE', 'TIME'))
+    a, b, c = order[i]
+    diff = target - size
+    if diff > 0:
+        b = b + ' ' + 'x' * max(diff - 1, 1) if diff > 1 else b + 'x'
+    elif diff < 0:
+        words = b.split()
+        flat = ' '.join(words)
+        keep = max(1, len(flat) + diff)
+        b = flat[:keep].strip() or 'x'
+        b = ' '.join(b.split())
+    order[i] = (a, b, c)
+    lines = render(order)
+    head_size = sum(len(l) + len(nl) for l in lines) + len(hdr) + len(nl)
+    rows = []
+    t0 = rng.randint(0, 2 * 10**9)
+    for r in range(rng.choice([1, 1, 3])):
+        rows.append(sep.join([str(t0 + r), '%02d%s%02d' % (rng.randint(1, 28), rng.choice(MONTHS), rng.randint(0, 99)),
+                              '%02d-%02d-%02d' % (rng.randint(0, 23), rng.randint(0, 59), rng.randint(0, 59))] +
+                             [rng.choice(['0', '8.5', '-999.25']) for _ in names]))
+    text = (nl.join(lines + [hdr] + rows) + nl).encode('ascii')
+    return text, 'DAT', {'kind': 'DAT', 'sized': target, 'head_size': head_size, 'channels': len(names), 'style': style, 'size': len(text)}
+
+
+def sized_las(rng, version, target):
+    """LAS text in which `target` bytes of comment / blank lines, a long section title or a long VERS description have
+    to be read through before the version line is complete."""
+    nl = rng.choice(['\n', '\r\n'])
+    value = rng.choice(LAS_VERSION_VALUES[version])
+    style = rng.randrange(4)
+    def junk(total):
+        out, n = [], 0
+        while n < total:
+            k = min(rng.choice([0, 1, 20, 79, 200, 1000]), total - n - len(nl))
+            k = max(k, 0)
+            l = ('#' + _text_of_len(rng, k - 1)) if (k and rng.random() < 0.8) else ' ' * k
+            out.append(l); n += len(l) + len(nl)
+        return out
+    head, vers = '~Version Information', 'VERS.   %s : CWLS LOG ASCII STANDARD' % value
+    pre, mid = [], []
+    if style == 0:
+        pre = junk(target)
+    elif style == 1:
+        mid = junk(target)
+    elif style == 2:
+        head = '~V' + _text_of_len(rng, max(target - 2, 0))
+    else:
+        vers = 'VERS. %s :%s' % (value, _text_of_len(rng, max(target - 12, 0)))
+    lines = pre + [head] + mid + [vers, 'WRAP. NO : One line per depth step', '~W', 'STRT.M 1.0 :', '~C', 'DEPT.M :', '~A', '1.0']
+    text = (nl.join(lines) + nl).encode('ascii')
+    return text, 'LAS' + version, {'kind': 'LAS' + version, 'sized': target, 'style': style, 'size': len(text)}
+
+
+def sized_rp66v1(rng, target):
+    """Storage unit label + visible records; the first visible record is as large as `target` allows (<= 16384) and the
+    whole file has exactly `target` bytes (target >= 104)."""
+    sul, rec = rp66v1_sul(rng)
+    body = bytearray()
+    remaining = max(target - 80, 24)
+    while remaining >= 24:
+        vr = min(remaining, 16384)
+        vr -= vr % 2
+        n = vr - 8
+        body += struct.pack('>HBB', vr, 0xff, 1) + struct.pack('>HBB', n + 4, 0x80 if not body else 0x60, rng.choice([0, 1, 5])) + rbytes(rng, n)
+        remaining -= vr
+    by = sul + bytes(body) + rbytes(rng, max(remaining, 0))     # an odd trailing byte / short tail: identification must not care
+    rec.update(kind='RP66V1', sized=target, size=len(by))
+    return by, 'RP66V1', rec
+
+
+def sized_lis(rng, target, lr_pool=()):
+    """LIS file (header record first) followed by large records (table dumps, comments, a real DFSR when available)
+    so that about `target` bytes follow the header; written by File.FileWrite in a random layout."""
+    from TotalDepth.LIS.core import File, PhysRec
+    fill = rng.choice([b' ', b'\x00'])
+    lrs = [lis_reel_tape_head(rng, 132, fill), lis_reel_tape_head(rng, 130, fill), lis_file_head(rng, fill)][rng.randrange(3):]
+    n = sum(len(x) for x in lrs)
+    if lr_pool and rng.random() < 0.4:
+        for lr in rng.choice(lr_pool):
+            if lr[0] in (34, 64) and n + len(lr) < target:
+                lrs.append(lr); n += len(lr)
+    while n < target:
+        k = min(rng.choice([100, 1000, 5000, 20000, 60000]), max(target - n - 2, 0))
+        lrs.append(bytes([rng.choice([232, 234, 47, 42, 85]), 0]) + rbytes(rng, k))
+        n += k + 2
+    tif = rng.choice(['', 't', 'tr'])
+    pr_len = rng.choice([PhysRec.PR_MAX_LENGTH, 1024, 8192, 512, 4096, rng.randint(200, 9000)])
+    prt = PhysRec.PhysRecTail(hasRecNum=rng.random() < 0.3, fileNum=rng.choice([None, None, 1]), hasCheckSum=rng.random() < 0.3)
+    buf = _KeepOpen()
+    fw = File.FileWrite(buf, 'gen', keepGoing=False, hasTif=bool(tif), thePrLen=pr_len, thePrt=prt)
+    for lr in lrs:
+        fw.write(lr)
+    fw.close()
+    by = buf.getvalue()
+    if tif == 'tr':
+        by = reverse_tif(by)
+    return by, 'LIS' + tif, {'kind': 'LIS' + tif, 'sized': target, 'records': len(lrs), 'pr_len': pr_len, 'size': len(by),
+                              'first_pr': min(pr_len, 4 + len(lrs[0]) + prt.prtLen)}
+
+
+def sized_bit(rng, target):
+    reverse = rng.random() < 0.25
+    fmt = '>3L' if reverse else '<3L'
+    out = bytearray(); prev = 0
+    def block(payload, typ=0):
+        nonlocal prev
+        pos = len(out)
+        out.extend(struct.pack(fmt, typ, prev, pos + 12 + len(payload))); out.extend(payload); prev = pos
+    n_ch = rng.randint(1, 20)
+    block(rbytes(rng, 4) + rprintable(rng, 160, NAME_CHARS) + struct.pack('>H', n_ch) + b'\x00\x00'
+          + rprintable(rng, 4 * n_ch, b'ABCDEFGHIJKLMNOPQRSTUVWXYZ ').ljust(80) + rbytes(rng, 28))
+    while len(out) + 24 + 12 < target:
+        block(rbytes(rng, min(n_ch * 64, max(target - len(out) - 36, 0))))
+    block(b'', 1); block(b'', 1)
+    by = bytes(out)
+    return by, 'BIT', {'kind': 'BIT', 'sized': target, 'size': len(by)}
+
+
+def sized_other(rng, name, target):
+    """The remaining formats: their own signature, then filler up to exactly `target` bytes (when the signature is shorter)."""
+    if name == 'segy':
+        by, code, rec = gen_segy(rng)
+        by = by[:3200]
+    elif name == 'rp66v2':
+        by, code, rec = gen_rp66v2(rng)
+        by = by[:128]
+    elif name == 'lisver':
+        by, code, rec = gen_lisver(rng)
+    elif name == 'ascii':
+        by, code, rec = b'', 'ASCII', {'kind': 'ASCII'}
+    elif name in ('rp66v1t', 'rp66v1tr'):
+        by, code, rec = gen_rp66v1_tif(rng, name.endswith('r'))
+    else:
+        by, code, rec = gen_magic(rng, name)
+    if len(by) < target:
+        if code in ('ASCII', 'LISVER', 'XML', 'PDF', 'PS'):
+            by = by + rprintable(rng, target - len(by), b'abcdefghijklmnopqrstuvwxyz ,.;\n')
+        else:
+            by = by + rbytes(rng, target - len(by))
+    rec = dict(rec, sized=target, size=len(by))
+    return by, code, rec
+
+
+def gen_sized(rng, name, target, pools=None):
+    pools = pools or {}
+    if name == 'dat': return sized_dat(rng, target)
+    if name in ('las12', 'las20', 'las30'): return sized_las(rng, {'las12': '1.2', 'las20': '2.0', 'las30': '3.0'}[name], target)
+    if name == 'rp66v1': return sized_rp66v1(rng, target)
+    if name == 'lis': return sized_lis(rng, target, pools.get('lis', ()))
+    if name == 'bit': return sized_bit(rng, target)
+    return sized_other(rng, name, target)
